@@ -44,8 +44,11 @@ void rmtree(const std::string & d)
     rmdir(d.c_str());
 }
 
+std::string g_port_text;     // the server's port as text: local names that contain it are reported with "$PORT" (the model's literal)
+
 void snapshot_into(const std::string & d, const std::string & prefix, std::vector<std::string> & items)
 {
+    auto nm = [](const std::string & s) { return g_port_text.empty() ? s : replace_all(s, g_port_text, "$PORT"); };
     DIR *dir = opendir(d.c_str());
     if (!dir) return;
     while (dirent *e = readdir(dir))
@@ -55,10 +58,10 @@ void snapshot_into(const std::string & d, const std::string & prefix, std::vecto
         std::string p = d + "/" + n;
         struct stat st{};
         if (lstat(p.c_str(), &st) != 0) continue;
-        if (S_ISDIR(st.st_mode)) { items.push_back(hex(prefix + n) + "/"); snapshot_into(p, prefix + n + "/", items); continue; }
+        if (S_ISDIR(st.st_mode)) { items.push_back(hex(nm(prefix + n)) + "/"); snapshot_into(p, prefix + n + "/", items); continue; }
         std::ifstream f(p, std::ios::binary);
         std::string c((std::istreambuf_iterator<char>(f)), std::istreambuf_iterator<char>());
-        items.push_back(hex(prefix + n) + "=" + std::to_string(c.size()) + "." + std::to_string(fnv(c)));
+        items.push_back(hex(nm(prefix + n)) + "=" + std::to_string(c.size()) + "." + std::to_string(fnv(c)));
     }
     closedir(dir);
 }
@@ -86,6 +89,7 @@ std::string run(const std::vector<std::string> & a)
     srv.start(false, 13, false);
     srv.core.implicit_data = true;
     { std::lock_guard<std::mutex> l(srv.mu); srv.core.begin_op(groups); }
+    g_port_text = std::to_string(srv.port);
 
     // working directory
     char tmpl[] = "/tmp/vh-app-XXXXXX";
